@@ -271,6 +271,52 @@ def raoult_envelope(pk, idx, z, T=None, P=None):
     return Tb, Td
 
 
+_s_noise = {}
+
+
+def entropy_noise(pk):
+    """Numerical resolution of the package's OWN entropy models: some liquid entropy functions of
+    the bundled data are quantised (catastrophic cancellation in the integral of Cp/T; benzene: steps
+    of 2 J/mol/K, cyclohexane 3, octane 0.008), so neither a solver nor an oracle can resolve an
+    entropy better than that.  Returns {phase: per-chemical max |second difference| over a fine grid}
+    [J/mol/K]; the curvature contribution at h = 0.02 K is < 1e-6 and ignored."""
+    key = id(pk.thermo.mixture)
+    if key in _s_noise:
+        return _s_noise[key]
+    mix = pk.thermo.mixture
+    out = {}
+    h = 0.02
+    with faults.disarmed(), np.errstate(all='ignore'):
+        for ph in ('l', 'g', 's'):
+            q = np.zeros(pk.n)
+            for k in range(pk.n):
+                e = np.zeros(pk.n)
+                e[k] = 1.
+                worst = 0.
+                try:
+                    for T in np.linspace(251., 499., 125):
+                        a = float(mix.S(ph, e, T - h, 101325.))
+                        b = float(mix.S(ph, e, T, 101325.))
+                        c = float(mix.S(ph, e, T + h, 101325.))
+                        d = abs(a - 2 * b + c)
+                        if d > worst:
+                            worst = d
+                except Exception:
+                    worst = 0.
+                q[k] = worst
+            out[ph] = q
+    out['L'] = out['l']
+    out['S'] = out['s']
+    _s_noise[key] = out
+    return out
+
+
+def entropy_noise_of(pk, snap):
+    """[kJ/hr/K] entropy resolution of a whole stream image"""
+    q = entropy_noise(pk)
+    return float(sum(np.sum(snap.rows[i] * q[p]) for i, p in enumerate(snap.phases)))
+
+
 # ====================================================================== bounds (C04)
 # Solver constants read from vle.py / mixture.py on the unchanged tree:
 #   VLE.T_tol = 5e-8 K, P_tol = 1 Pa, H_hat_tol = S_hat_tol = 1e-6 (kJ/kg, kJ/kg/K), V_tol = 1e-6,
@@ -285,14 +331,41 @@ VLE_HHAT_TOL = 1e-6
 MIX_T_TOL = 1e-6
 
 # Every tolerance clause is  residual <= MULT[clause] * unit,  where `unit` is the solver's own
-# resolution propagated to the residual (computed per case, see c04_* below) and MULT is frozen
-# from the calibration batch (>= 10 x the largest residual/unit seen on fresh objects).
+# resolution propagated to the residual (computed per case, see c04_* below) and MULT is frozen from
+# the calibration batch: tools/eqsim_calibrate.py 8000 777 (32 408 fresh fault-free in-domain vle
+# calls on the unchanged tree, 15 raised) and 3200 4242 (13 034 calls).  Numbers below are
+# "max residual/unit of the batch" -> frozen MULT (>= 10 x).  The batches contain a handful of
+# OUTLIERS (listed) where the unchanged tree returns an unconverged result on a fresh stream; those
+# are not absorbed into the bound: they are the known finding of region C04-fresh-baseline-miss and
+# are judged differentially (EqWorld.c04_check).
 MULT = {
-    'spec-H': 1e3, 'spec-S': 1e3, 'spec-H-T': 1e3, 'spec-S-T': 1e3,
-    'spec-V': 1e3, 'spec-V-stream': 1e3,
-    'phase-boundary': 1e3, 'iso-fugacity': 1e3,
-    'ideal-RR': 1e3, 'ideal-RR-V': 1e3, 'ideal-RR-HS': 1e3, 'ideal-RR-xy': 1e3,
-    'scaling': 1e3, 'scaling-T': 1e3, 'scaling-P': 1e3,
+    # unit = H_hat_tol + Cp/F_mass * Mixture.T_tol [kJ/kg]; batch max 6.6e-5 (n = 5147 + 2060)
+    'spec-H': 1.,
+    # unit = S_hat_tol + Cp/T/F_mass * Mixture.T_tol + entropy-model resolution [kJ/kg/K]; smooth tail
+    # 102, 88, 80, 71, 67, 63 (n = 3826): the closing lever step of set_PS is first order in S
+    'spec-S': 2000.,
+    # unit = 1e-6 + |d(hat)/dP|_local * P_tol (+ entropy resolution); bulk max 0.40 (H, n = 2490),
+    # 0.43 (S, n = 1924); outliers H: 5.1e4, 671, 224; S: 66, (775 at hf < 0.03, no longer generated)
+    'spec-H-T': 10., 'spec-S-T': 10.,
+    # unit = V_tol + K_tol + |dV/dT| T_tol (|dV/dP| P_tol); bulk max 0.496 (n = 3019 + 1223);
+    # outlier 7.58 (TV, V = 0.032 answered at the bubble clamp with V_eq = 0.36)
+    'spec-V': 10., 'spec-V-stream': 10.,
+    # unit = K_tol on |ln P/P_boundary|; no disagreement in 2 x ~600 TP family cases -> 10 x K_tol
+    'phase-boundary': 10.,
+    # unit = K_tol on max |ln f_l/f_g|; batch max 0.31 (n = 265 + 123)
+    'iso-fugacity': 10.,
+    # unit = K_tol + V_tol (fraction of the feed); TP: 8.9e-10 (n = 586 + 233); PV/TV: 8.7e-6
+    # (n = 1075 + 454), outlier 4.6e4 (PV, 9 % of the feed); H/S specs: 5.6, 3.4, 1.7 (n = 1508 + 562)
+    'ideal-RR': 1., 'ideal-RR-V': 1., 'ideal-RR-HS': 100., 'ideal-RR-xy': 100.,
+    # twin universe, unit flows = K_tol + V_tol of the feed, T: T_tol, P: P_tol / P
+    # TP/PV/TV: flows 0.11, P 0.11, T bulk 6e-4 (n = 7642 + 3029), outlier T 275 (1.4e-5 K)
+    'scaling': 10., 'scaling-T': 10., 'scaling-P': 10.,
+    # PH/TH: flows bulk 0.40, outliers 4.4e4, 579, 559, 20; T bulk 1.5e-3, outlier 7.0e6 (0.35 K);
+    # P bulk 3e-7, outliers 85, 1.5 (n = 4992 + 2017)
+    'scaling-H': 10., 'scaling-H-T': 10., 'scaling-H-P': 10.,
+    # PS/TS (units include the entropy models' resolution): flows bulk 3.0, 2.0, 0.63, outliers 1393,
+    # 424, 147; T 0.73; P bulk 6e-3, outlier 1991 (n = 3717 + 1498)
+    'scaling-S': 100., 'scaling-S-T': 10., 'scaling-S-P': 10.,
 }
 
 # ====================================================================== swarm configuration
@@ -518,6 +591,7 @@ class EqWorld(BaseWorld):
         self.k = cfg.get('twin_k')
         self.calib = cfg.get('calib')     # calibration mode: residuals are recorded, not judged
         self.resid = {}
+        self.n_baseline = 0
         for spec in cfg['streams']:
             s = self._create(spec['pkg'], spec['phases'], spec['T'], spec['P'], spec['rows'], 1.0)
             self.streams[spec['name']] = s
@@ -716,7 +790,10 @@ class EqWorld(BaseWorld):
             ev['hf'] = r6(r.uniform(0., 1.))
         elif pair in ('TH', 'TS'):
             ev['T'] = self.draw_T(r)
-            ev['hf'] = r6(r.uniform(0.03, 0.97)) if r.random() < 0.9 else r6(r.uniform(0., 1.))
+            if self.prop == 'C04' or r.random() < 0.9:
+                ev['hf'] = r6(r.uniform(0.03, 0.97))
+            else:
+                ev['hf'] = r6(r.uniform(0., 1.))
         else:
             ev.update(self.gen_xy(name, pair, r))
         st['last'] = dict(ev)
@@ -1265,34 +1342,27 @@ class EqWorld(BaseWorld):
                               {'before': before.to_json(), 'after': after.to_json(), 'event': ev})
 
     # ------------------------------------------------------------ C04
-    def judge(self, clause, resid, unit, msg, detail):
-        """A tolerance clause  residual <= MULT[clause] * unit : recorded in calibration mode,
-        judged otherwise."""
-        self.stats['c04:' + clause] += 1
-        if self.calib:
-            log = getattr(self, 'resid_log', None)
-            if log is not None:
-                log[clause].append((resid / unit if unit else float('inf'), resid, unit, msg))
-            return
-        bound = MULT[clause] * unit
-        if not resid <= bound:
-            self.fail(clause, msg + f' (residual {resid:.6g}, bound {bound:.6g} = {MULT[clause]:g} x solver '
-                      f'resolution {unit:.3g})', detail)
+    # Tolerance clauses are evaluated as (clause, residual, unit) triples; a clause holds when
+    # residual <= MULT[clause] * unit.  A failing tolerance clause is judged DIFFERENTIALLY against
+    # the history-free baseline (same call on a brand-new stream built from the same observable
+    # state): the unchanged tree itself misses its specifications on roughly one fresh in-domain call
+    # in a thousand (iteration caps of 20 with checkiter=False return unconverged values silently) -
+    # that baseline defect is the listed known finding of region BASELINE_REGION; everything the
+    # fresh stream gets right and the aged / fault-recovered one gets wrong is a violation.
 
-    def c04_check(self, ev, name, pk, before, after, kw):
-        spec = ev['spec']
-        cb = Comp(pk, before)
-        detail = {'before': before.to_json(), 'after': after.to_json(), 'event': ev,
-                  'kwargs': {k: (v if not isinstance(v, float) else float(v)) for k, v in kw.items()}}
-        # domain of C04: 1-5 volatile chemicals in the material the flash works on, locked ones small
+    def rec(self, out, clause, resid, unit, msg, **extra):
+        out.append({'clause': clause, 'resid': float(resid), 'unit': float(unit), 'msg': msg, 'extra': extra})
+
+    def c04_in_domain(self, cb):
         if not cb.clean or not (1 <= len(cb.vol) <= 5) or not cb.F > 0.:
-            self.stats['c04:skip_outside_domain'] += 1
-            return
+            return 'outside_domain'
         if (cb.F_gas + cb.F_heavy) > 0.25 * (cb.F_vol + cb.F_gas + cb.F_heavy):
-            self.stats['c04:skip_locked_not_small'] += 1
-            return
-        self.stats['c04:checked'] += 1
-        # (1) the specified temperature / pressure are the stream's temperature / pressure
+            return 'locked_not_small'
+        return None
+
+    def c04_exact(self, ev, name, after, detail):
+        """(1) the specified temperature / pressure ARE the stream's temperature / pressure."""
+        spec = ev['spec']
         if 'T' in spec and not after.T == ev['T']:
             self.fail('spec-T', f"{name}: vle({spec}) with T={ev['T']!r} left stream.T = {after.T!r}", detail)
         if 'P' in spec and not after.P == ev['P']:
@@ -1303,50 +1373,161 @@ class EqWorld(BaseWorld):
         if not np.all(np.isfinite(after.rows)):
             self.fail('spec-H' if 'H' in spec else 'spec-S' if 'S' in spec else 'spec-V',
                       f'{name}: vle({spec}) returned non-finite flows', detail)
-        ca = Comp(pk, after)
+
+    def c04_residuals(self, ev, name, pk, before, after, kw, count=True):
+        """All tolerance clauses of C04 that apply to this call -> list of records."""
+        out = []
+        spec = ev['spec']
+        cb = Comp(pk, before)
         mix = pk.thermo.mixture
-        F_mass = float(np.sum(pk.MW * after.lg()))
         rows_after = [(p, after.rows[i]) for i, p in enumerate(after.phases)]
+        F_mass = float(np.sum(pk.MW * after.totals()))
         # (2) specified enthalpy / entropy reproduced by the result (dense-row path)
-        if 'H' in spec or 'S' in spec:
+        if ('H' in spec or 'S' in spec) and F_mass > 0:
             which = 'H' if 'H' in spec else 'S'
             val = float((mix.xH if which == 'H' else mix.xS)(rows_after, after.T, after.P))
-            F_mass = float(np.sum(pk.MW * after.totals()))
-            resid = abs(val - kw[which]) / F_mass if F_mass > 0 else float('inf')
+            resid = abs(val - kw[which]) / F_mass
             Cn = float(mix.xCn(rows_after, after.T, after.P))        # kJ/hr/K
+            noise = entropy_noise_of(pk, after) / F_mass if which == 'S' else 0.
+            unit = None
             if 'P' in spec:
-                # set_PH / set_PS end with an exact lever step or with xsolve_T_at_HP / _SP, whose
-                # temperature resolution is Mixture.T_tol; the bracketing solve stops at H_hat_tol
-                unit = VLE_HHAT_TOL + (Cn if which == 'H' else Cn / after.T) / F_mass * MIX_T_TOL
+                # set_PH / set_PS end with a lever step (exact for H, first order for S) or with
+                # xsolve_T_at_HP / _SP whose temperature resolution is Mixture.T_tol; the bracketing
+                # solve stops at H_hat_tol / S_hat_tol
+                unit = VLE_HHAT_TOL + (Cn if which == 'H' else Cn / after.T) / F_mass * MIX_T_TOL + noise
                 clause = 'spec-' + which
             else:
-                # IQ_interpolation on P stops at |dP| < P_tol: propagate through d(hat)/dP of the envelope
-                slope = 0.
-                if cb.z is not None:
-                    try:
-                        pb, pd = raoult_envelope(pk, cb.vol, cb.z, T=ev['T'])
-                        lo, hi = self.energy_span(pk, before, ev)
-                        slope = abs(hi - lo) / F_mass / max(abs(pb - pd), VLE_P_TOL)
-                    except Exception:
-                        slope = 0.
-                unit = VLE_HHAT_TOL + slope * VLE_P_TOL
+                # IQ_interpolation on P stops at |dP| < P_tol or |residual| < 1e-6: the residual is
+                # bounded by the LOCAL slope d(hat)/dP times P_tol; the slope needs an independent flash
+                slope = self.local_slope_P(pk, cb, before, after, which)
                 clause = 'spec-' + which + '-T'
-            self.judge(clause, resid, unit,
-                       f"{name}: vle({spec}) asked for {which}={kw[which]!r} but the resulting stream has "
-                       f"{which}={val!r} (per kg: {resid:.3g})", detail)
+                if slope is None:
+                    if count:
+                        self.stats['c04:skip_' + clause + '_no_independent_flash'] += 1
+                else:
+                    unit = VLE_HHAT_TOL + slope * VLE_P_TOL + noise
+            if unit is not None:
+                self.rec(out, clause, resid, unit,
+                         f"{name}: vle({spec}) asked for {which}={kw[which]!r} but the resulting stream has "
+                         f"{which}={val!r} (per kg: {resid:.3g})")
         family_ok = (pk.family is not None and pk.simple_K and cb.F_gas == 0. and cb.F_heavy == 0.
                      and cb.z is not None and float(cb.z.min()) >= 0.02 and len(cb.vol) >= 2)
         # (3) specified vapour fraction met within the solver's resolution (family mixtures)
         if 'V' in spec and family_ok and self.win['V'][0] < ev['V'] < self.win['V'][1]:
-            self.c04_vspec(ev, name, pk, cb, ca, after, detail)
+            self.c04_vspec(out, ev, name, pk, cb, after, count)
         # (4) phase boundaries and iso-fugacity at specified T and P (family mixtures)
         if spec == 'TP' and family_ok:
-            self.c04_tp(ev, name, pk, cb, ca, after, detail)
+            self.c04_tp(out, ev, name, pk, cb, after, count)
         # (5) ideal package: independent Raoult / Rachford-Rice split at the resulting T, P
         if pk.ideal:
-            self.c04_ideal(ev, name, pk, cb, after, detail)
+            self.c04_ideal(out, ev, name, pk, cb, after, count)
+        return out
 
-    def c04_vspec(self, ev, name, pk, cb, ca, after, detail):
+    def c04_check(self, ev, name, pk, before, after, kw):
+        cb = Comp(pk, before)
+        detail = {'before': before.to_json(), 'after': after.to_json(), 'event': ev,
+                  'kwargs': {k: (v if not isinstance(v, float) else float(v)) for k, v in kw.items()}}
+        why = self.c04_in_domain(cb)
+        if why:
+            self.stats['c04:skip_' + why] += 1
+            return
+        self.stats['c04:checked'] += 1
+        self.c04_exact(ev, name, after, detail)
+        recs = self.c04_residuals(ev, name, pk, before, after, kw)
+        for r in recs:
+            self.stats['c04:' + r['clause']] += 1
+        if self.calib:
+            log = getattr(self, 'resid_log', None)
+            if log is not None:
+                for r in recs:
+                    log[r['clause']].append((r['resid'] / r['unit'] if r['unit'] else float('inf'),
+                                             r['resid'], r['unit'], r['msg']))
+            return
+        bad = [r for r in recs if not r['resid'] <= MULT[r['clause']] * r['unit']]
+        if not bad:
+            return
+        # differential judgement against the history-free baseline
+        base = None
+        try:
+            fresh = self.fresh_from(name, before)
+            out, _ = self.call(None, self.eq_callable(fresh, ev, kw))
+            if out[0] == 'ok':
+                fa = take_snap(fresh)
+                base = {r['clause']: r for r in self.c04_residuals(ev, name, pk, before, fa, kw, count=False)}
+        except Violation:
+            raise
+        except Exception:
+            base = None
+        for r in bad:
+            bound = MULT[r['clause']] * r['unit']
+            d = dict(detail, **r['extra'])
+            b = base.get(r['clause']) if base else None
+            msg = r['msg'] + (f" (residual {r['resid']:.6g}, bound {bound:.6g} = {MULT[r['clause']]:g} x solver "
+                              f"resolution {r['unit']:.3g})")
+            if b is not None and not b['resid'] <= MULT[b['clause']] * b['unit']:
+                # a brand-new stream given the same input misses the clause as well: baseline defect
+                d['fresh_stream_residual'] = b['resid']
+                self.baseline_defect(r['clause'], msg + ' [a fresh stream misses it too: '
+                                     f"residual {b['resid']:.6g}]", d)
+            else:
+                d['fresh_stream_residual'] = b['resid'] if b else None
+                self.fail(r['clause'], msg + (f" [a fresh stream given the same input meets it: residual "
+                                              f"{b['resid']:.6g}]" if b else ' [fresh stream: no result]'), d)
+
+    def baseline_defect(self, clause, msg, detail):
+        """The history-free baseline itself misses the clause (known finding BASELINE_REGION)."""
+        if BASELINE_REGION in self.regions:
+            self.stats['region:' + BASELINE_REGION] += 1
+            self.stats['baseline:' + clause] += 1
+            self.n_baseline += 1
+            return
+        self.fail(clause, msg, detail)
+
+    def reference_flash(self, pk, cb, T, P):
+        """Independent equilibrium split of the l+g material at (T, P) -> (l, v) dense rows, or None
+        when no independent flash is available for this package / composition."""
+        idx = cb.vol
+        if pk.ideal and cb.F_solute == 0.:
+            F = cb.F
+            z = np.array([cb.lg[k] for k in idx]) / F
+            _, l, v = rachford_rice(z, psat_vec(pk, idx, T) / P, cb.F_gas / F, 0.)
+        elif pk.family is not None and pk.simple_K and cb.F_gas == 0. and cb.F_heavy == 0. and len(idx) >= 2:
+            F = cb.F_vol
+            _, l, v, ok = gamma_flash(pk, idx, cb.z, T, P)
+            if not ok:
+                return None
+        else:
+            return None
+        liq = np.zeros(pk.n)
+        gas = np.zeros(pk.n)
+        for j, k in enumerate(idx):
+            liq[k] = l[j] * F
+            gas[k] = v[j] * F
+        for k in pk.gas:
+            gas[k] = cb.lg[k]
+        for k in pk.heavy:
+            liq[k] = cb.lg[k]
+        return liq, gas
+
+    def local_slope_P(self, pk, cb, before, after, which):
+        """|d(H or S per kg)/dP| of the equilibrium curve at the result, by an independent flash."""
+        T, P = after.T, after.P
+        if not P > 100. * VLE_P_TOL or cb.N_eff < 2:
+            return None
+        h = max(1e-4 * P, VLE_P_TOL)
+        mix = pk.thermo.mixture
+        f = mix.xH if which == 'H' else mix.xS
+        others = [(p, after.rows[i]) for i, p in enumerate(after.phases) if p not in ('l', 'g')]
+        vals = []
+        for Pq in (P - h, P + h):
+            r = self.reference_flash(pk, cb, T, Pq)
+            if r is None:
+                return None
+            vals.append(float(f([('l', r[0]), ('g', r[1])] + others, T, Pq)))
+        F_mass = float(np.sum(pk.MW * after.totals()))
+        return abs(vals[1] - vals[0]) / (2 * h) / F_mass
+
+    def c04_vspec(self, out, ev, name, pk, cb, after, count):
         spec = ev['spec']
         idx, z = cb.vol, cb.z
         V_spec = ev['V']
@@ -1365,49 +1546,39 @@ class EqWorld(BaseWorld):
             Vb, _, _, okb = gamma_flash(pk, idx, z, T, P + h)
             xtol = VLE_P_TOL
         if not (ok0 and oka and okb):
-            self.stats['c04:skip_reference_flash_not_converged'] += 1
+            if count:
+                self.stats['c04:skip_reference_flash_not_converged'] += 1
             return
         slope = abs(Vb - Va) / (2 * h)
-        bound = (VLE_V_TOL + VLE_K_TOL) + slope * xtol      # the two stopping criteria of IQ_interpolation
-        detail = dict(detail, V_equilibrium_at_result=V0, V_stream=V_stream, dV_dx=slope)
-        self.judge('spec-V', abs(V0 - V_spec), bound,
-                   f"{name}: vle({spec}) V={V_spec!r}: at the returned T={T!r}, P={P!r} the equilibrium vapour "
-                   f"fraction is {V0!r}", detail)
-        self.judge('spec-V-stream', abs(V_stream - V_spec), bound,
-                   f"{name}: vle({spec}) V={V_spec!r}: the resulting stream has vapour fraction {V_stream!r}", detail)
+        unit = (VLE_V_TOL + VLE_K_TOL) + slope * xtol      # the two stopping criteria of IQ_interpolation
+        self.rec(out, 'spec-V', abs(V0 - V_spec), unit,
+                 f"{name}: vle({spec}) V={V_spec!r}: at the returned T={T!r}, P={P!r} the equilibrium vapour "
+                 f"fraction is {V0!r}", V_equilibrium_at_result=V0, V_stream=V_stream, dV_dx=slope)
+        self.rec(out, 'spec-V-stream', abs(V_stream - V_spec), unit,
+                 f"{name}: vle({spec}) V={V_spec!r}: the resulting stream has vapour fraction {V_stream!r}",
+                 V_equilibrium_at_result=V0, V_stream=V_stream, dV_dx=slope)
 
-    def c04_tp(self, ev, name, pk, cb, ca, after, detail):
+    def c04_tp(self, out, ev, name, pk, cb, after, count):
         idx, z = cb.vol, cb.z
         T, P = after.T, after.P
         pb = bubble_P(pk, idx, z, T)
         pd = dew_P(pk, idx, z, T)
         if not (math.isfinite(pb) and math.isfinite(pd) and pd <= pb * (1 + 1e-9)):
-            self.stats['c04:skip_reference_envelope'] += 1
+            if count:
+                self.stats['c04:skip_reference_envelope'] += 1
             return
         l, g = after.row('l'), after.row('g')
         Fl = float(sum(l[k] for k in idx))
         Fg = float(sum(g[k] for k in idx))
-        m = MULT['phase-boundary'] * VLE_K_TOL
         state = 'l' if Fg == 0. else 'g' if Fl == 0. else 'lg'
         want = 'l' if P >= pb else 'g' if P <= pd else 'lg'
-        detail = dict(detail, P_bubble=pb, P_dew=pd, result_state=state)
-        if self.calib:
-            if state != want:
-                # distance (relative) of P to the boundary that was crossed
-                d = min(abs(math.log(P / pb)), abs(math.log(P / pd)))
-                self.judge('phase-boundary', d, VLE_K_TOL, f'{name}: state {state} but reference says {want} '
-                           f'T={T!r} P={P!r} Pb={pb!r} Pd={pd!r}', detail)
-        else:
-            self.stats['c04:phase-boundary'] += 1
-            if P >= pb * (1 + m) and state != 'l':
-                self.fail('phase-boundary', f"{name}: vle(TP) at P={P!r} >= bubble pressure {pb!r} is not all liquid "
-                          f"(vapour {Fg!r} kmol/hr)", detail)
-            if P <= pd * (1 - m) and state != 'g':
-                self.fail('phase-boundary', f"{name}: vle(TP) at P={P!r} <= dew pressure {pd!r} is not all vapour "
-                          f"(liquid {Fl!r} kmol/hr)", detail)
-            if pd * (1 + m) < P < pb * (1 - m) and state != 'lg':
-                self.fail('phase-boundary', f"{name}: vle(TP) at P={P!r} between dew {pd!r} and bubble {pb!r} "
-                          f"pressure gave a single phase '{state}'", detail)
+        # all liquid at or above the bubble pressure, all vapour at or below the dew pressure, two
+        # phases in between; residual = how far (in ln P) the result is on the wrong side of a boundary
+        d = 0. if state == want else min(abs(math.log(P / pb)), abs(math.log(P / pd)))
+        self.rec(out, 'phase-boundary', d, VLE_K_TOL,
+                 f"{name}: vle(TP) at T={T!r}, P={P!r} (bubble pressure {pb!r}, dew pressure {pd!r}) returned "
+                 f"state '{state}' where '{want}' is required", P_bubble=pb, P_dew=pd, result_state=state)
+        m = MULT['phase-boundary'] * VLE_K_TOL
         if state == 'lg' and pd * (1 + m) < P < pb * (1 - m):
             chems = [pk.chems[k] for k in idx]
             x = np.array([l[k] for k in idx]) / Fl
@@ -1416,40 +1587,38 @@ class EqWorld(BaseWorld):
             f_g = np.asarray(tmo_eq.GasFugacities(chems, pk.thermo)(y.copy(), T, P), dtype=float)
             if np.all(f_l > 0) and np.all(f_g > 0):
                 resid = float(np.max(np.abs(np.log(f_l / f_g))))
-                detail = dict(detail, f_liquid=f_l.tolist(), f_gas=f_g.tolist())
-                self.judge('iso-fugacity', resid, VLE_K_TOL,
-                           f"{name}: vle(TP) two-phase result: liquid and vapour fugacities differ, "
-                           f"max |ln(f_l/f_g)| = {resid:.3g}", detail)
             else:
-                self.fail('iso-fugacity', f'{name}: non-positive fugacity at a two-phase result', detail)
+                resid = float('inf')
+            self.rec(out, 'iso-fugacity', resid, VLE_K_TOL,
+                     f"{name}: vle(TP) two-phase result: liquid and vapour fugacities differ, "
+                     f"max |ln(f_l/f_g)| = {resid:.3g}", f_liquid=f_l.tolist(), f_gas=f_g.tolist(),
+                     P_bubble=pb, P_dew=pd)
 
-    def c04_ideal(self, ev, name, pk, cb, after, detail):
+    def c04_ideal(self, out, ev, name, pk, cb, after, count):
         spec = ev['spec']
         idx = cb.vol
         T, P = after.T, after.P
+        if cb.F_gas or cb.F_heavy:
+            if count:
+                self.stats['c04:skip_ideal_locked_present'] += 1     # the clause speaks of volatile chemicals
+            return
         Ps = psat_vec(pk, idx, T)
         K = Ps / P
-        if cb.N_eff == 1 and abs(float(K[0]) - 1.) < 1e-6:
-            self.stats['c04:skip_ideal_pure_at_saturation'] += 1
+        if cb.N_eff == 1 and (spec != 'TP' or abs(float(K[0]) - 1.) < 1e-6):
+            if count:
+                self.stats['c04:skip_ideal_pure_at_saturation'] += 1
             return
         F = cb.F
         z = np.array([cb.lg[k] for k in idx]) / F
-        V, l_ref, v_ref = rachford_rice(z, K, cb.F_gas / F, cb.F_solute / F)
+        V, l_ref, v_ref = rachford_rice(z, K, 0., 0.)
         g = after.row('g')
         v = np.array([g[k] for k in idx]) / F
         resid = float(np.max(np.abs(v - v_ref)))
-        bound = VLE_K_TOL + VLE_V_TOL
-        if spec != 'TP' and cb.N_eff == 1:
-            self.stats['c04:skip_ideal_pure_non_TP'] += 1
-            return
-        detail = dict(detail, rachford_rice={'V': V, 'K': K.tolist(), 'v_ref': (v_ref * F).tolist(),
-                                             'v': (v * F).tolist()})
         clause = 'ideal-RR' if spec == 'TP' else 'ideal-RR-' + ('V' if 'V' in spec else 'HS' if ('H' in spec or 'S' in spec) else 'xy')
-        if self.calib and (cb.F_gas or cb.F_heavy):
-            clause += '+locked'
-        self.judge(clause, resid, bound,
-                   f"{name}: ideal package vle({spec}) at T={T!r}, P={P!r}: vapour flows differ from the "
-                   f"Raoult / Rachford-Rice split by {resid:.3g} of the feed", detail)
+        self.rec(out, clause, resid, VLE_K_TOL + VLE_V_TOL,
+                 f"{name}: ideal package vle({spec}) at T={T!r}, P={P!r}: vapour flows differ from the "
+                 f"Raoult / Rachford-Rice split by {resid:.3g} of the feed",
+                 rachford_rice={'V': V, 'K': K.tolist(), 'v_ref': (v_ref * F).tolist(), 'v': (v * F).tolist()})
 
     # ------------------------------------------------------------ twins
     def fresh_twin_stat(self, ev, name, before, kw, after):
@@ -1483,18 +1652,46 @@ class EqWorld(BaseWorld):
             e['rows'] = {p: [v * k for v in row] for p, row in ev['rows'].items()}
         return e
 
+    def scaling_residuals(self, ev, name, pk, before, after, ta, k):
+        """Scaling clause records: twin image `ta` against k x the main image `after`."""
+        out = []
+        F = float(after.totals().sum())
+        if not F > 0 or ta.phases != after.phases:
+            return out
+        spec = ev['spec']
+        resid = float(np.max(np.abs(ta.rows - k * after.rows))) / (k * F)
+        grp = '-H' if 'H' in spec else '-S' if 'S' in spec else ''
+        u_flow, u_T, u_P = VLE_K_TOL + VLE_V_TOL, VLE_T_TOL, VLE_P_TOL / after.P
+        if grp == '-S':
+            # the entropy models' own resolution limits how well T (and with it the split) is fixed
+            noise = entropy_noise_of(pk, after)
+            rows_after = [(p, after.rows[i]) for i, p in enumerate(after.phases)]
+            Cn = float(pk.thermo.mixture.xCn(rows_after, after.T, after.P))
+            try:
+                lo, hi = self.energy_span(pk, before, ev)
+                span = abs(hi - lo)
+            except Exception:
+                span = 0.
+            u_T += noise / (Cn / after.T) if Cn > 0 else 0.
+            u_flow += noise / span if span > 0 else 0.
+        self.rec(out, 'scaling' + grp, resid, u_flow,
+                 f"{name}: vle({spec}) on the same history with all flows x {k}: product flows are "
+                 f"not {k} x the original ones (max deviation {resid:.3g} of the feed)")
+        self.rec(out, 'scaling' + grp + '-T', abs(ta.T - after.T), u_T,
+                 f"{name}: vle({spec}) with all flows x {k}: T = {ta.T!r} instead of {after.T!r}")
+        self.rec(out, 'scaling' + grp + '-P', abs(ta.P / after.P - 1.), u_P,
+                 f"{name}: vle({spec}) with all flows x {k}: P = {ta.P!r} instead of {after.P!r}")
+        return out
+
     def twin_step(self, ev, name, kw, before, after, pk):
         """Scaling clause of C04: the same history on a universe with all flows x k."""
         if not self.k or name not in self.twins:
             return
         k = self.k
         t = self.twins[name]
-        try:
-            tb = take_snap(t)
-            kw2 = self.vle_kwargs(self.pk(name), tb, ev) if ev['op'] == 'vle' else None
-            out, _ = self.call(ev.get('fault'), self.eq_callable(t, ev, kw2))
-        except Violation:
-            raise
+        tb = take_snap(t)
+        kw2 = self.vle_kwargs(self.pk(name), tb, ev) if ev['op'] == 'vle' else None
+        out, _ = self.call(ev.get('fault'), self.eq_callable(t, ev, kw2))
         if out[0] == 'exc' or after is None:
             if (out[0] == 'exc') != (after is None):
                 self.stats['scale:only_one_side_raised'] += 1
@@ -1503,23 +1700,53 @@ class EqWorld(BaseWorld):
         ta = take_snap(t)
         if self.prop == 'C04' and ev['op'] == 'vle':
             cb = Comp(pk, before)
-            in_dom = (cb.clean and 1 <= len(cb.vol) <= 5 and cb.F > 0.
-                      and (cb.F_gas + cb.F_heavy) <= 0.25 * (cb.F_vol + cb.F_gas + cb.F_heavy))
-            if in_dom and ta.phases == after.phases:
-                F = float(after.totals().sum())
-                detail = {'k': k, 'before': before.to_json(), 'after': after.to_json(),
-                          'twin_before': tb.to_json(), 'twin_after': ta.to_json(), 'event': ev}
-                resid = float(np.max(np.abs(ta.rows - k * after.rows))) / (k * F) if F > 0 else 0.
-                self.judge('scaling', resid, VLE_K_TOL + VLE_V_TOL,
-                           f"{name}: vle({ev['spec']}) on the same history with all flows x {k}: product flows are "
-                           f"not {k} x the original ones (max deviation {resid:.3g} of the feed)", detail)
-                self.judge('scaling-T', abs(ta.T - after.T), VLE_T_TOL,
-                           f"{name}: vle({ev['spec']}) with all flows x {k}: T = {ta.T!r} instead of {after.T!r}", detail)
-                self.judge('scaling-P', abs(ta.P / after.P - 1.), VLE_P_TOL / after.P,
-                           f"{name}: vle({ev['spec']}) with all flows x {k}: P = {ta.P!r} instead of {after.P!r}", detail)
+            if self.c04_in_domain(cb) is None and ta.phases == after.phases:
+                with faults.disarmed(), np.errstate(all='ignore'):
+                    self.judge_scaling(ev, name, pk, before, after, tb, ta, kw, kw2, k)
             else:
                 self.stats['scale:skip'] += 1
         self.resync_twin(name)
+
+    def judge_scaling(self, ev, name, pk, before, after, tb, ta, kw, kw2, k):
+        recs = self.scaling_residuals(ev, name, pk, before, after, ta, k)
+        for r in recs:
+            self.stats['c04:' + r['clause']] += 1
+        if self.calib:
+            log = getattr(self, 'resid_log', None)
+            if log is not None:
+                for r in recs:
+                    log[r['clause']].append((r['resid'] / r['unit'] if r['unit'] else float('inf'),
+                                             r['resid'], r['unit'], r['msg']))
+            return
+        bad = [r for r in recs if not r['resid'] <= MULT[r['clause']] * r['unit']]
+        if not bad:
+            return
+        detail = {'k': k, 'before': before.to_json(), 'after': after.to_json(),
+                  'twin_before': tb.to_json(), 'twin_after': ta.to_json(), 'event': ev}
+        base = None
+        try:
+            f1 = self.fresh_from(name, before)
+            f2 = self.fresh_from(name, tb)
+            o1, _ = self.call(None, self.eq_callable(f1, ev, kw))
+            o2, _ = self.call(None, self.eq_callable(f2, ev, kw2))
+            if o1[0] == 'ok' and o2[0] == 'ok':
+                base = {r['clause']: r for r in
+                        self.scaling_residuals(ev, name, pk, before, take_snap(f1), take_snap(f2), k)}
+        except Violation:
+            raise
+        except Exception:
+            base = None
+        for r in bad:
+            bound = MULT[r['clause']] * r['unit']
+            b = base.get(r['clause']) if base else None
+            msg = r['msg'] + (f" (residual {r['resid']:.6g}, bound {bound:.6g} = {MULT[r['clause']]:g} x solver "
+                              f"resolution {r['unit']:.3g})")
+            d = dict(detail, fresh_pair_residual=(b['resid'] if b else None))
+            if b is not None and not b['resid'] <= MULT[b['clause']] * b['unit']:
+                self.baseline_defect(r['clause'], msg + f" [a fresh pair of streams deviates too: {b['resid']:.6g}]", d)
+            else:
+                self.fail(r['clause'], msg + (f" [a fresh pair of streams given the same inputs agrees: "
+                                              f"{b['resid']:.6g}]" if b else ' [fresh pair: no result]'), d)
 
     def resync_twin(self, name):
         """Make the twin's observable state exactly k x the main stream again (its solver objects,
@@ -1634,7 +1861,12 @@ class EqWorld(BaseWorld):
         return None
 
     def finish(self):
-        pass
+        # sporadic baseline misses are a listed finding; a run in which they pile up is not sporadic
+        n = self.stats.get('c04:checked', 0)
+        if self.n_baseline > max(2, 0.2 * n):
+            self.fail('baseline-rate', f'{self.n_baseline} of {n} checked vle calls of this run miss a tolerance '
+                      'clause on fresh streams as well: not the sporadic baseline defect of the known finding',
+                      {'baseline_by_clause': {k: v for k, v in self.stats.items() if k.startswith('baseline:')}})
 
 
 # ====================================================================== known-finding regions
@@ -1645,10 +1877,32 @@ def _single_partitioning(world, ev):
     return world.n_eff(ev['stream']) == 1
 
 
+def _single_with_heavy(world, ev):
+    try:
+        c = Comp(world.pk(ev['stream']), take_snap(world.streams[ev['stream']]))
+        return c.N_eff == 1 and c.F_heavy > 0.
+    except Exception:
+        return False
+
+
+BASELINE_REGION = 'C04-fresh-baseline-miss'
+
 REGIONS = {
+    # judged at the oracle (EqWorld.baseline_defect), not at generation: the same call on a brand-new
+    # stream built from the same observable state misses the same tolerance clause
+    BASELINE_REGION: lambda w, ev: False,
     # VLE._set_TV_chemical stores Psat(T) in the stream's TEMPERATURE (vle.py:465)
     'C04-TV-single-volatile': lambda w, ev: (ev.get('op') == 'vle' and ev.get('spec') == 'TV'
                                              and _single_partitioning(w, ev)),
+    # VLE._set_TH_chemical / _set_TS_chemical never store the specified T (vle.py:513, :589)
+    'C04-THS-single-volatile': lambda w, ev: (ev.get('op') == 'vle' and ev.get('spec') in ('TH', 'TS')
+                                              and _single_partitioning(w, ev)),
+    # VLE._set_PS_chemical interpolates S linearly in the vapour fraction although the liquid row also
+    # holds an inert locked chemical (ideal-mixing term is not linear): S is reproduced only to ~1e-3 kJ/kg/K
+    'C04-PS-single-volatile-inert-liquid': lambda w, ev: (ev.get('op') == 'vle' and ev.get('spec') == 'PS'
+                                                          and _single_with_heavy(w, ev)),
+    # VLE.set_Tx / set_Px / set_Ty / set_Py never store the specified T (P) (vle.py:622-644)
+    'C04-xy-spec-not-stored': lambda w, ev: (ev.get('op') == 'vle' and ev.get('spec') in ('Tx', 'Px', 'Ty', 'Py')),
 }
 
 
